@@ -19,7 +19,7 @@ from hypothesis import strategies as st
 from vf.common import Discard, Violation
 from vf.forms import LinGen, decode_md
 from vf.gen import Gen, Profile, worlds
-from vf.props.c19 import Keys
+from vf.props.c19 import CyclicDAG, Keys
 
 LEVEL = "exploration"
 RULE = (
@@ -88,7 +88,10 @@ class Snap:
     def __init__(self, obj, K):
         self.obj = obj
         self.K = K
-        self.data = self.take()
+        try:
+            self.data = self.take()
+        except (RecursionError, CyclicDAG):
+            raise Violation("a result contains itself: an operator re-initialised one of its operands in place", {"kind": "mutated:cycle"})
 
     def take(self):
         import ufl
@@ -108,7 +111,7 @@ class Snap:
     def check(self, after):
         try:
             now = self.take()
-        except RecursionError:
+        except (RecursionError, CyclicDAG):
             raise Violation(f"an input can no longer be traversed after step '{after}' (its DAG has become cyclic)",
                             {"kind": "mutated:cycle", "step": after})
         if now != self.data:
@@ -171,7 +174,10 @@ def check_case(case):
                 forms.append(f)
         exprs = [ufl.as_ufl(b.build(r)) for r in case["exprs"]]
     except RecursionError:
-        raise
+        # expressions of this size are far from the recursion limit: a constructor returned an operand after
+        # re-initialising it in place, which makes that operand contain itself
+        raise Violation("building the pool recursed without end: a constructor produced a node that contains itself",
+                        {"kind": "mutated:cycle"})
     except Exception as ex:
         raise Discard("build:" + type(ex).__name__)
     if not forms:
